@@ -65,6 +65,10 @@ type Interp struct {
 	FS       map[string]string
 	Stdin    []string
 	MaxSteps int
+	// RerunImports models a KNOWN DEFECT, never the expected behaviour: a file that is imported again (a
+	// second alias, a second import path) has its top-level code executed again, on fresh values of the
+	// variables it defines. Checks use it only to recognise exactly that failure shape.
+	RerunImports bool
 	// Loader resolves an import path (relative to the importing file's name) to a program.
 	Loader func(from, path string) (name string, p *Prog)
 
@@ -129,11 +133,16 @@ func (in *Interp) RunNamed(name string, p *Prog) (obs Obs) {
 }
 
 func (in *Interp) runModule(name string, p *Prog) *module {
-	if m, ok := in.mods[name]; ok {
+	m, again := in.mods[name]
+	if again && !in.RerunImports {
 		return m
 	}
-	m := &module{globals: newFrame(nil), funcs: map[string]*FuncDef{}, imports: map[string]*module{}}
-	in.mods[name] = m
+	if again {
+		m.globals = newFrame(nil)
+	} else {
+		m = &module{globals: newFrame(nil), funcs: map[string]*FuncDef{}, imports: map[string]*module{}}
+		in.mods[name] = m
+	}
 	for _, im := range p.Imports {
 		if in.Loader == nil {
 			in.undefined("import without loader")
